@@ -228,7 +228,7 @@ func (p *hostilePlugin) VerifySignature(ctx context.Context, req *pf.VerifySigna
 type hostileMgr struct{ p *hostilePlugin }
 
 func (m hostileMgr) Get(ctx context.Context, name string) (pf.Plugin, error) { return m.p, nil }
-func (m hostileMgr) List(ctx context.Context) ([]string, error)               { return nil, nil }
+func (m hostileMgr) List(ctx context.Context) ([]string, error)              { return nil, nil }
 
 func child(batch int, seed int64, tier, outDir string) {
 	debug.SetTraceback("all")
@@ -409,6 +409,126 @@ func child(batch int, seed int64, tier, outDir string) {
 	dir.UserConfigDir = cfgDir
 	dir.UserLibexecDir = filepath.Join(cfgDir, "libexec")
 	dir.UserCacheDir = filepath.Join(cfgDir, "cache")
+
+	// ---- well-signed envelopes of unusual shape x verification plugins (enumerated, first batch only): random and
+	// mutated envelopes die at the signature check, so the code behind it - attribute classification, the request
+	// sent to a verification plugin, the processing of its answer - is only reached by envelopes that verify.
+	if batch == 0 {
+		type shapeT struct {
+			name string
+			cose bool // needs integer labels
+			ext  []signature.Attribute
+		}
+		nested := map[string]any{"a": []any{1, "x", nil, map[string]any{"b": true}}, "n": 1.5}
+		plugHdr := []signature.Attribute{{Key: lib.HdrPlugin, Critical: true, Value: "plug"}}
+		shapes := []shapeT{
+			{"plugin+int-label", true, append([]signature.Attribute{{Key: int64(1000), Value: "x"}}, plugHdr...)},
+			{"plugin+negative-int-label-bytes", true, append([]signature.Attribute{{Key: int64(-70000), Value: []byte{1, 2, 3}}}, plugHdr...)},
+			{"plugin+several-int-labels", true, append([]signature.Attribute{{Key: int64(77), Value: int64(1) << 40}, {Key: int64(78), Value: nil}, {Key: "s", Value: "v"}}, plugHdr...)},
+			{"int-label-no-plugin", true, []signature.Attribute{{Key: int64(1000), Value: "x"}}},
+			{"plugin+nested-value", false, append([]signature.Attribute{{Key: "io.example.nested", Value: nested}}, plugHdr...)},
+			{"plugin+null-value", false, append([]signature.Attribute{{Key: "io.example.null", Value: nil}}, plugHdr...)},
+			{"plugin+critical-nested-value", false, append([]signature.Attribute{{Key: "io.example.crit", Critical: true, Value: nested}}, plugHdr...)},
+			{"plugin+critical-number", false, append([]signature.Attribute{{Key: "io.example.num", Critical: true, Value: 12345}}, plugHdr...)},
+			{"plugin+empty-key", false, append([]signature.Attribute{{Key: "", Value: "v"}}, plugHdr...)},
+			{"plugin-name-empty", false, []signature.Attribute{{Key: lib.HdrPlugin, Critical: true, Value: ""}}},
+			{"plugin-name-not-a-string", false, []signature.Attribute{{Key: lib.HdrPlugin, Critical: true, Value: 7}}},
+			{"min-version-not-a-string", false, append([]signature.Attribute{{Key: lib.HdrPluginMinVer, Critical: true, Value: []any{"1.0.0"}}}, plugHdr...)},
+			{"min-version-without-plugin", false, []signature.Attribute{{Key: lib.HdrPluginMinVer, Critical: true, Value: "1.0.0"}}},
+			{"many-attributes", false, func() []signature.Attribute {
+				out := append([]signature.Attribute{}, plugHdr...)
+				for k := 0; k < 300; k++ {
+					out = append(out, signature.Attribute{Key: fmt.Sprintf("io.example.k%d", k), Critical: k%2 == 0, Value: strings.Repeat("v", k)})
+				}
+				return out
+			}()},
+		}
+		caps := [][]pf.Capability{{pf.CapabilityTrustedIdentityVerifier, pf.CapabilityRevocationCheckVerifier}, {pf.CapabilityTrustedIdentityVerifier}, {pf.CapabilityRevocationCheckVerifier}}
+		for _, sh := range shapes {
+			for _, f := range lib.Formats {
+				if sh.cose && f != lib.MediaCOSE {
+					continue
+				}
+				for pi, isBlob := range []bool{false, true} {
+					pl := lib.Payload(desc)
+					if isBlob {
+						pl = lib.Payload(blobDesc)
+					}
+					var env []byte
+					func() {
+						defer func() {
+							if recover() != nil {
+								env = nil // the signing library refuses this shape: nothing to verify
+							}
+						}()
+						env = lib.MustCoreSign(lib.SignSpec{Format: f, Payload: pl, Signer: good, Ext: sh.ext})
+					}()
+					if env == nil {
+						res.Events["shaped:unsignable"]++
+						continue
+					}
+					for ci, cp := range caps {
+						for _, level := range []string{"strict", "permissive", "audit"} {
+							for _, pmKind := range []string{"well-behaved", "hostile-answers", "none"} {
+								var pm plugin.Manager
+								switch pmKind {
+								case "well-behaved":
+									pm = lib.ScriptedManager{P: &lib.ScriptedPlugin{Caps: cp}}
+								case "hostile-answers":
+									pm = hostileMgr{&hostilePlugin{meta: pf.GetMetadataResponse{Name: "plug", Version: "1.0.0", SupportedContractVersions: []string{"1.0"}, Capabilities: cp},
+										vs: pf.VerifySignatureResponse{VerificationResults: map[pf.Capability]*pf.VerificationResult{cp[0]: nil, "X": {Success: true}}, ProcessedAttributes: []interface{}{nil, 1, "io.example.crit", map[string]any{"a": 1}}}}}
+								}
+								cid := fmt.Sprintf("shaped %s %s blob=%v caps=%d %s %s", sh.name, f, isBlob, ci, level, pmKind)
+								run("well-signed unusual envelopes x verification plugins", cid, env, func() {
+									v := mkVerifier("both", level, pm)
+									if isBlob {
+										out, err := v.(notation.BlobVerifier).VerifyBlob(ctx, func(alg digest.Algorithm) (ocispec.Descriptor, error) { return blobDesc, nil }, env, notation.BlobVerifierVerifyOptions{SignatureMediaType: f, TrustPolicyName: "named"})
+										checkPair("well-signed unusual envelopes x verification plugins", cid, out, err, true, env)
+									} else {
+										out, err := v.Verify(ctx, desc, env, notation.VerifierVerifyOptions{ArtifactReference: "r.io/a@" + desc.Digest.String(), SignatureMediaType: f})
+										checkPair("well-signed unusual envelopes x verification plugins", cid, out, err, true, env)
+									}
+								})
+								res.Events["shaped:verified"]++
+							}
+						}
+					}
+					_ = pi
+				}
+			}
+		}
+	}
+
+	// ---- plugin output far beyond any sensible reply (second batch only, so that an abort by the resource monitor
+	// costs no other coverage): 1.5 GiB on stdout or stderr, exiting 0 or 1. The child's RSS sampler is the oracle.
+	if batch == 1 {
+		workerBin := filepath.Join(os.Getenv("VERIF_BIN"), "worker")
+		if _, err := os.Stat(workerBin); err == nil {
+			pdir := filepath.Join(cfgDir, "plugins", "flood")
+			os.MkdirAll(pdir, 0o755)
+			exe := filepath.Join(pdir, "notation-flood")
+			if os.Link(workerBin, exe) != nil {
+				b, _ := os.ReadFile(workerBin)
+				os.WriteFile(exe, b, 0o755)
+			}
+			for _, stream := range []string{"stdout_fill", "stderr_fill"} {
+				for _, exit := range []int{0, 1} {
+					beh, _ := json.Marshal(map[string]any{"*": map[string]any{"exit": exit, stream: int64(1536) << 20}})
+					os.WriteFile(exe+".behavior.json", beh, 0o644)
+					run("plugin.CLIPlugin flooded by its process", fmt.Sprintf("%s exit=%d", stream, exit), beh, func() {
+						p, err := plugin.NewCLIPlugin(ctx, "flood", exe)
+						if err != nil {
+							return
+						}
+						if md, err := p.GetMetadata(ctx, &pf.GetMetadataRequest{}); err == nil {
+							viol("flood-accepted", "plugin.CLIPlugin flooded by its process", fmt.Sprintf("a plugin that wrote 1.5 GiB to %s was answered with success: %+v", stream, md), nil)
+						}
+						res.Events["plugin-floods"]++
+					})
+				}
+			}
+		}
+	}
 
 	for i := 0; i < nCases; i++ {
 		id := fmt.Sprintf("b%d/%d", batch, i)
